@@ -297,6 +297,27 @@ func runC10(p *Prog, r *Report) {
 					}
 				}
 			}
+			// ... and it applies only when it changed some weight: re-applying unchanged weights re-upserts every
+			// server of the wrapped balancer, which restarts its rotation once per back-off interval although
+			// the pool did not change (C01: windows spanning the restart are no longer proportional)
+			if okCorr {
+				changes := func(in ssa.Instruction) bool {
+					st, ok := in.(*ssa.Store)
+					return ok && isFieldAddr(st.Addr, rb.rec, rb.cur)
+				}
+				for _, b := range f.Blocks {
+					for _, in := range b.Instrs {
+						if _, isCall := in.(*ssa.Call); !isCall || !rb.apply.MayInstr(in) {
+							continue
+						}
+						_, without, okA := EventAt(f, changes, nil, in)
+						r.Paths++
+						r.Check(okA && !without, "C10.R3", an+": "+FName(f)+" applies weights only after changing one", p.InstrPos(in),
+							"the application is unreachable unless a current weight was stored on the way (relational flag fixpoint)",
+							"weights are re-applied to the wrapped balancer although none was changed: every back-off interval all servers are re-upserted and the wrapped balancer's rotation restarts without any pool change")
+					}
+				}
+			}
 			r.Check(okCorr, "C10.R3", an+": "+FName(f)+" returns true exactly when it applied weights", p.FuncPos(f), "every `return true` has passed the application, no `return false` follows one", "the routine's boolean result does not tell whether weights were applied: the timer is not re-armed after an adjustment")
 			// on the true edge of the result the timer is re-armed
 			isArm := NewEvents(p, func(in ssa.Instruction) bool {
